@@ -19,7 +19,7 @@ from . import _family as F
 
 TARGETS = ["uint8", "uint32", "int16", "char", "void", "T", "uint16 *", "wchar", "E"]
 PRELUDE = "enum E : uint16 { E_A = 1, E_B }; struct T { uint16 a; uint8 b[2]; };\n"
-WIDTHS = {"uint8": 1, "uint16": 2, "uint32": 4, "uint64": 8}
+WIDTHS = {"uint8": 1, "uint16": 2, "uint24": 3, "uint32": 4, "uint48": 6, "uint64": 8}
 
 
 def check(run: Run) -> None:
@@ -33,8 +33,11 @@ def check(run: Run) -> None:
     deref_checks, deref_meta = [], []
 
     combos = [(pw, e, tg, comp) for pw in WIDTHS for e in ("<", ">") for tg in TARGETS for comp in (False, True)]
+    native = [(pw, e, tg, comp) for pw in WIDTHS for e in ("@", "=") for tg in TARGETS for comp in (False, True)]   # the machine's byte order: oracle only
     if not thorough:
-        combos = rng.sample(combos, 70)
+        combos = rng.sample(combos, 70) + rng.sample(native, 16)
+    else:
+        combos += native
     for pw, endian, tg, compiled in combos:
         psz = WIDTHS[pw]
         text = PRELUDE + f"struct main {{ uint8 k; {tg} *p; uint16 after; {tg} *q[2]; }};"
@@ -46,7 +49,7 @@ def check(run: Run) -> None:
             size = T.size
             # plant addresses: in range, null, out of range
             offs = {f._name: f.offset for f in T.__fields__}
-            order = "little" if endian == "<" else "big"
+            order = __import__("sys").byteorder if endian in "@=" else ("little" if endian == "<" else "big")
             limit = min(1 << (8 * psz), 1 << 16)
             addrs = [rng.choice([0, rng.randrange(1, min(40, limit)), rng.randrange(1, min(40, limit)), min(limit - 1, 47), min(limit - 1, 200)]) for _ in range(3)]
             if trial == 0 and size < limit:
@@ -56,9 +59,16 @@ def check(run: Run) -> None:
             body[offs["q"] + psz:offs["q"] + 2 * psz] = addrs[2].to_bytes(psz, order)
             data = bytes(body)
             c2 = Case(text, endian=endian, pointer=pw, compiled=compiled, align=c.align, ops=[("parse", data, 0), ("dump", data, 0)])
-            items += build_items(c2)
+            if endian not in "@=":
+                items += build_items(c2)
             st = io.BytesIO(data)
-            v = T._read(st)
+            try:
+                v = T._read(st)
+            except Exception as e:  # noqa: BLE001
+                failures += 1
+                n_oracle += 1
+                run.report("C16/parse-raises", {**c2.describe(), "ops": [{"op": "parse", "data": data.hex(), "observed": f"{type(e).__name__}: {e}", "expected": "a structure with its pointers"}]})
+                continue
             pos_after = st.tell()
             cfg = structs.cfg_term(cs, text)
             for ptr, name in [(v.__dict__["p"], "p"), (v.__dict__["q"][0], "q[0]"), (v.__dict__["q"][1], "q[1]")]:
@@ -104,8 +114,9 @@ def check(run: Run) -> None:
                     probs.append({"what": "pointer + 2", "observed": f"{type(q).__name__} {int.__int__(q)}", "expected": f"{type(ptr).__name__} {addr + 2} on the same stream"})
                 # model comparison of the dereference
                 exp = canon.cerr(d1) if isinstance(d1, BaseException) else ("(Ok None)" if d1 is None else f"(Ok (Some {structs.value_term(d1, tt if tt.__name__ != 'char' else cs.resolve('char')[None])}))")
-                deref_checks.append(f"rov_eqb (deref {cfg} {structs.ty_term(tt)} {canon.cbytes(data)} (mkPtr {cz(addr)} true)) {exp}")
-                deref_meta.append((c2, name, addr, repr(got)[:200]))
+                if endian not in "@=":
+                    deref_checks.append(f"rov_eqb (deref {cfg} {structs.ty_term(tt)} {canon.cbytes(data)} (mkPtr {cz(addr)} true)) {exp}")
+                    deref_meta.append((c2, name, addr, repr(got)[:200]))
                 if probs:
                     failures += 1
                     run.report("C16/" + probs[0]["what"].split(" ")[0], {**c2.describe(), "ops": [{"op": "parse then dereference " + name, "data": data.hex(), "problems": probs[:3]}]})
@@ -202,6 +213,22 @@ def check(run: Run) -> None:
                        "pointer": name, "address": addr, "implementation": got, "count": len(bad)}, tag="corr-deref", no_input=True)
     mism = run_items(run, items)
     report_unexplained(run, mism, explained, "corr_ptr (structures with pointer fields: Model.Reader/Writer)")
+    # ---- recorded finding: a pointer that is a member of a fixed-size union is bound to the union's private copy of its bytes ----
+    for compiled in (False, True):
+        n_oracle += 1
+        cs_u = structs.load("struct main { uint8 a; union { uint8 *p; uint8 raw; } u; uint8 b; };", pointer="uint8", compiled=compiled)
+        stream = io.BytesIO(bytes([1, 3, 9, 0xAA, 0xBB]))
+        v = cs_u.main(stream)
+        try:
+            got = int(v.u.p.dereference())
+        except Exception as e:  # noqa: BLE001
+            got = type(e).__name__
+        if got != 0xAA:
+            failures += 1
+            run.report("C16/pointer-in-union" if got == "EOFError" and v.u.p._stream is not stream else "C16/dereference",
+                       {"definition": "struct main { uint8 a; union { uint8 *p; uint8 raw; } u; uint8 b; };", "cstruct_kwargs": {"endian": "<", "pointer": "uint8"}, "load_kwargs": {"compiled": compiled, "align": False},
+                        "ops": [{"op": "parse 01 03 09 aa bb, dereference u.p (address 3)", "observed": repr(got), "expected": "0xaa: the byte at absolute offset 3 of the stream"}]})
+
     F.obligation_fallback(run, ok, bool(failures or mism or bad))
     F.finish_cov(run, items, mism,
                  "struct { uint8 k; T *p; uint16 after; T *q[2]; } for pointer widths 8/16/32/64 x {<,>} x targets {uint8, uint32, int16, char, void, struct, pointer to pointer, "
